@@ -332,6 +332,12 @@ pub fn c14(rng: &mut Rng, thorough: bool, idx: u64) -> Spec {
         }
         old.pools.push(p2);
     }
+    // a third of the runs: the statement cache is on in pool db and its workers execute, after the
+    // reload, a statement they prepared under a name before it
+    let stmt_cache = rng.chance(0.3);
+    if stmt_cache {
+        old.pools[0].cache_size = 8;
+    }
     let trigger = *rng.pick(&["RELOAD", "RELOAD", "HUP", "autoreload"]);
     if trigger == "autoreload" {
         old.set("autoreload", 200);
@@ -486,6 +492,12 @@ pub fn c14(rng: &mut Rng, thorough: bool, idx: u64) -> Spec {
     for k in 0..rng.range(1, if thorough { 4 } else { 3 }) {
         id += 1;
         let mut p = Prog::new(id);
+        if stmt_cache {
+            // a statement prepared under a name before the reload ...
+            p.new_txn();
+            let m = { let mut m = super::base::ext_batch(&mut p, rng, "w1", "", 1, 0, 0, false, false); m.truncate(1); m.push(FrontMsg::S); m };
+            p.send(m);
+        }
         if k == 0 {
             p.new_txn();
             let t = p.tag();
@@ -500,6 +512,15 @@ pub fn c14(rng: &mut Rng, thorough: bool, idx: u64) -> Spec {
         }
         let nn = rng.range(4, 12);
         worker_prog(&mut p, rng, nn, (10, 80), true);
+        if stmt_cache {
+            // ... and executed after it
+            p.steps.push(Step::Wait { ev: "reloaded".into() });
+            for _ in 0..rng.range(1, 2) {
+                p.new_txn();
+                let tag = p.tag();
+                p.send(vec![FrontMsg::B { portal: "".into(), stmt: "w1".into(), fmt: vec![], params: vec![Some(tag)], rfmt: vec![], binary_hex: false }, FrontMsg::E { portal: "".into(), max: 0 }, FrontMsg::S]);
+            }
+        }
         p.steps.push(Step::Terminate);
         clients.push(client(id, "app", "db", "apppw", rng.range(0, 40), p.steps));
     }
